@@ -63,6 +63,7 @@ inductive CorePrim : Core → Core → Prop
   | provide (st : Core) (ty : Nat) (v : Int) : CorePrim st (provide st ty v)
   | useCtx (st : Core) (ty : Nat) : CorePrim st (useCtx st ty)
   | takeCtx (st : Core) (ty : Nat) : CorePrim st (takeCtx st ty)
+  | updateCtx (st : Core) (ty : Nat) (d : Int) : CorePrim st (updateCtx st ty d)
   | setPaused (st : Core) (o : Nat) (p : Bool) : CorePrim st (setPaused st o p)
   | setCur (st : Core) (cur : List Nat) : CorePrim st { st with cur := cur }
   | logEv (st : Core) (e : Ev) (h : e.isC = false) : CorePrim st (logEv st e)
@@ -498,6 +499,14 @@ theorem CidInv.prim {a b : Core} (hp : CorePrim a b) (h : CidInv a []) : CidInv 
       · simp only; exact sumW_modOwner_eq _ _ _ _ (fun r => by simp [recCount])
       · simp only; rw [modOwner_nextCid]
     · exact h.congr (fun cid => logCount_snoc_notC cid _ _ rfl) (fun _ => rfl) rfl
+  | updateCtx ty d =>
+    unfold updateCtx
+    split
+    · refine h.congr (fun cid => ?_) (fun cid => ?_) ?_
+      · simp only; rw [logCount_snoc_notC cid _ _ rfl, modOwner_log]
+      · simp only; exact sumW_modOwner_eq _ _ _ _ (fun r => by simp [recCount])
+      · simp only; rw [modOwner_nextCid]
+    · exact h.congr (fun cid => logCount_snoc_notC cid _ _ rfl) (fun _ => rfl) rfl
   | setPaused o p =>
     unfold setPaused
     exact h.congr (fun _ => by rw [pauseWalk_log]) (fun cid => pauseWalk_sumW _ (by intros; simp [recCount]) _ _ _ _)
@@ -562,6 +571,10 @@ theorem ArenaLe.prim {a b : Core} (hp : CorePrim a b) : ArenaLe a.arena b.arena 
   | useCtx ty => unfold useCtx; split <;> exact ArenaLe.refl _
   | takeCtx ty =>
     unfold takeCtx; split
+    · simp only; rw [modOwner_arena]; exact ArenaLe.refl _
+    · exact ArenaLe.refl _
+  | updateCtx ty d =>
+    unfold updateCtx; split
     · simp only; rw [modOwner_arena]; exact ArenaLe.refl _
     · exact ArenaLe.refl _
   | setPaused o p => unfold setPaused; rw [pauseWalk_arena]; exact ArenaLe.refl _
